@@ -93,6 +93,7 @@ func (s *subPub) process() {
 			for j := 0; j < len(cSlice); j++ {
 				if cSlice[j].notifier == info.notifier {
 					cSlice = append(cSlice[:j], cSlice[j+1:]...)
+					j-- // the next element has moved to index j
 				}
 			}
 			if len(cSlice) == 0 {
